@@ -150,6 +150,18 @@ def run(prop, tier, replay=None):
         violations.append(("%s: %s at line %d (%s)" % (sid, r.get("why") or "trace not a behaviour of JobTask",
                                                       r["line"], r["event"]["e"]), path))
 
+    extra = {}
+    if prop == "C07" and not replay:
+        # several waiters on one ticket, on real threads: the Flag itself against Flag.tla
+        import flagcheck
+        fviol, extra, fmc, fstats = flagcheck.run(prop, tier, rng)
+        violations += fviol
+        for k in ("distinct", "generated"):
+            mc[k] += fmc[k]
+            stats[k] += fstats[k]
+        acc += extra["flag_scenarios_accepted"]
+        total += extra["flag_scenarios"]
+
     samples = [dict(script=by_id.get(json.loads(sc[0])["a"].split("#")[0]), trace=sample_of(sc))
                for sc in scen[len(scen) // 3: len(scen) // 3 + 2]]
     coverage = dict(
@@ -167,7 +179,7 @@ def run(prop, tier, replay=None):
         checker_cmd="tlc MC_Job.tla -config MC_Job_%s_%s.cfg ; job_driver ; tlc %s -config %s (per shard)" % (prop, tier, module, cfg),
         model_cfg="spec/mc/MC_Job_%s_%s.cfg" % (prop, tier),
         script_families=sorted({s.get("origin", "?") for s in scripts}),
-        repetitions_per_script=reps,
+        repetitions_per_script=reps, **extra
     )
     assumptions = [
         "single-threaded tokio runtime with paused clock: recorded order is the real order, equal timestamps are the same instant",
